@@ -24,7 +24,28 @@ func pat(n int, seed byte) []byte {
 // ---------------------------------------------------------------- corpus
 func corpus() []caseT {
 	var cs []caseT
-	add := func(name string, snap bool, lines ...string) { cs = append(cs, caseT{name, snap, lines}) }
+	// every corpus case runs twice: dense (full content observed after every request — which loads every record) and
+	// sparse (only the case's own Gets/Browses, plus one full observation at the very end when the store is open)
+	add := func(name string, snap bool, lines ...string) {
+		cs = append(cs, caseT{Name: name, Snap: snap, Lines: lines})
+		if len(lines) > 40 {
+			return
+		}
+		sp := append([]string{}, lines...)
+		open := false
+		for _, l := range sp {
+			switch strings.Fields(l)[0] {
+			case "open":
+				open = true
+			case "close", "crashat":
+				open = false
+			}
+		}
+		if open {
+			sp = append(sp, "peek")
+		}
+		cs = append(cs, caseT{Name: name + "/sparse", Snap: snap, Lines: sp, Sparse: true})
+	}
 	// minimised past failures (both repaired by fix: commits; kept so that a regression is reported again)
 	add("nocache-pending-browse-get", true,
 		"open 0 1 "+defOpts, "putext 1 68656c6c6f 2", "browse -", "get 1", "close", "open 0 1 "+defOpts, "get 1")
@@ -56,6 +77,11 @@ func corpus() []caseT {
 	add("volatile", true,
 		"open 1 1 "+defOpts, "put 1 aa", "put 2 bb", "del 1", "sync", "defrag 1", "nosync", "close",
 		"open 1 0 "+defOpts, "get 2", "get 1", "close", "open 1 1 "+defOpts, "del 2", "close", "open 0 1 "+defOpts, "count", "close")
+	// the closing sequence of client/peersdb (Sync, Defrag(true), Close) on a VOLATILE store: Sync and Defrag do nothing
+	// there, and Close must still write the session's changes
+	add("volatile-sync-defrag-close", true,
+		"open 1 1 "+defOpts, "put 1 aa", "put 2 bb", "sync", "defrag 1", "close", "open 0 1 "+defOpts, "get 1", "get 2", "close",
+		"open 1 1 "+defOpts, "del 1", "put 2 cc", "sync", "close", "open 0 0 "+defOpts, "get 1", "get 2")
 	add("defrag-empty-index", true,
 		"open 0 1 "+defOpts, "put 1 aa", "sync", "del 1", "sync", "defrag 1", "close", "open 0 1 "+defOpts, "put 2 bb", "close", "open 0 1 "+defOpts, "get 2")
 	add("lazy-load-nocache-nobrowse", true,
@@ -94,6 +120,26 @@ func corpus() []caseT {
 		"open 0 1 "+defOpts, "put 3 dd", "put 1 ee", "defrag 1", "crashat 5", "open 0 1 "+defOpts, "put 4 ff", "close", "crashat 2",
 		"open 0 1 "+defOpts, "get 1", "get 4", "put 5 11", "crashat 0", "open 0 0 "+defOpts, "get 5", "put 6 22", "sync", "crashat 4",
 		"open 0 1 "+defOpts, "get 6", "put 6 33", "sync", "close", "open 0 1 "+defOpts, "get 6")
+	// flag words beyond the four meaningful bits (the theorems speak of any 32-bit word): the bit of value 4 (BR_ABORT's value, without
+	// meaning in PutExt / ApplyFlags), NO_CACHE together with unknown bits, all ones, the top bit
+	add("wide-flag-words", true,
+		"open 0 1 "+defOpts, "putext 1 aa 4", "putext 2 bbbb 6", "putext 3 cc 4294967295", "putext 4 dd 2147483648", "putext 5 ee 4294967293",
+		"sync", "get 2", "get 3", "browse -", "flags 1 4294967295", "flags 4 6", "flags 5 2147483650", "browse 4:2147483648,1:4294967291",
+		"defrag 1", "get 1", "get 5", "close", "open 0 0 "+defOpts, "browse -", "get 3", "flags 3 24", "browse -", "put 3 ff", "sync", "close",
+		"open 1 0 "+defOpts, "get 2", "flags 2 4294967295", "del 4", "close", "open 0 1 "+defOpts, "get 1", "get 2", "get 3", "get 4", "get 5")
+	// a lazy open followed DIRECTLY by Get / Put / Del / ApplyFlags / Sync / Defrag / Close on records that are not in
+	// memory (in the sparse run nothing loads them before)
+	add("lazy-open-then-direct-operations", true,
+		"open 0 1 "+defOpts, "put 1 "+hexOf(pat(40, 1)), "put 2 "+hexOf(pat(33, 2)), "put 3 "+hexOf(pat(50, 3)), "put 4 dd", "put 5 ee", "close",
+		"open 0 0 "+defOpts, "get 2", "put 1 "+hexOf(pat(41, 9)), "del 3", "flags 4 2", "sync", "get 4", "defrag 1", "get 5", "close",
+		"open 0 0 50 300 0 0", "del 5", "put 4 "+hexOf(pat(30, 4)), "defrag 0", "close",
+		"open 1 0 "+defOpts, "put 2 "+hexOf(pat(35, 5)), "get 1", "close",
+		"open 0 0 "+defOpts, "defrag 1", "close", "open 0 0 "+defOpts, "close",
+		"open 0 1 "+defOpts, "get 1", "get 2", "get 3", "get 4", "get 5")
+	add("lazy-open-crash-and-continue", true,
+		"open 0 1 "+defOpts, "put 1 "+hexOf(pat(40, 1)), "put 2 "+hexOf(pat(33, 2)), "sync", "put 3 cc", "close",
+		"open 0 0 "+defOpts, "put 1 "+hexOf(pat(20, 7)), "del 2", "sync", "crashat 3", "open 0 0 "+defOpts, "get 1", "put 4 dd", "defrag 1", "crashat 6",
+		"open 1 0 "+defOpts, "get 3", "put 5 ee", "close", "crashat 4", "open 0 0 "+defOpts, "get 5", "get 1", "get 2")
 	// more than 1 MiB of data: bufio's buffer overflows inside defrag (a write reaches the file before Flush)
 	big := []string{"open 0 1 50 300 100 100"}
 	for i := 0; i < 18; i++ {
@@ -163,7 +209,12 @@ func genCase(g *vlib.Rng, idx int) caseT {
 	}
 	nops := 10 + g.Intn(31)
 	lines := []string{genOpen(g)}
+	// sparse: the full content is observed only at the checkpoints chosen here (`peek`); dense: after every request
+	sparse := g.Chance(2, 3)
 	for i := 0; i < nops; i++ {
+		if sparse && i > 0 && g.Chance(1, 9) {
+			lines = append(lines, "peek")
+		}
 		switch x := g.Intn(112); {
 		case x >= 108:
 			// the process dies inside the previous request; the history continues after NewDBExt on what is left
@@ -218,7 +269,7 @@ func genCase(g *vlib.Rng, idx int) caseT {
 		case x < 30:
 			lines = append(lines, "put "+key()+" "+hexOf(genValue(g, &big)))
 		case x < 40:
-			lines = append(lines, fmt.Sprintf("putext %s %s %d", key(), hexOf(genValue(g, &big)), g.Pick(0, 1, 2, 3)))
+			lines = append(lines, fmt.Sprintf("putext %s %s %d", key(), hexOf(genValue(g, &big)), genFlags(g, false)))
 		case x < 55:
 			lines = append(lines, "del "+key())
 		case x < 63:
@@ -232,14 +283,14 @@ func genCase(g *vlib.Rng, idx int) caseT {
 					k := key()
 					if !seen[k] {
 						seen[k] = true
-						ps = append(ps, fmt.Sprintf("%s:%d", k, g.Pick(1, 2, 3, 8, 16, 24, 17, 10)))
+						ps = append(ps, fmt.Sprintf("%s:%d", k, genFlags(g, true)))
 					}
 				}
 				w = strings.Join(ps, ",")
 			}
 			lines = append(lines, "browse "+w)
 		case x < 76:
-			lines = append(lines, fmt.Sprintf("flags %s %d", key(), g.Pick(1, 2, 3, 8, 16, 24)))
+			lines = append(lines, fmt.Sprintf("flags %s %d", key(), genFlags(g, false)))
 		case x < 82:
 			lines = append(lines, fmt.Sprintf("defrag %d", g.Intn(2)))
 		case x < 88:
@@ -256,7 +307,31 @@ func genCase(g *vlib.Rng, idx int) caseT {
 			lines = append(lines, "get "+itoa(k))
 		}
 	}
-	return caseT{fmt.Sprintf("gen-%d", idx), true, lines}
+	if sparse {
+		lines = append(lines, "peek")
+	}
+	return caseT{Name: fmt.Sprintf("gen-%d", idx), Snap: true, Lines: lines, Sparse: sparse}
+}
+
+// genFlags: a flag word for PutExt / ApplyFlags / a walk result. Mostly the meaningful bits (NO_BROWSE 1, NO_CACHE 2,
+// YES_CACHE 8, YES_BROWSE 16 and their combinations), sometimes any other 32-bit word: the bit of value 4 alone and with NO_CACHE
+// (4, 6), the top bit, all ones, random words. A walk result never carries the bit of value 4 (BR_ABORT: see abortStream).
+func genFlags(g *vlib.Rng, walk bool) uint32 {
+	var f uint32
+	switch x := g.Intn(10); {
+	case x < 6:
+		f = uint32(g.Pick(0, 1, 2, 3, 8, 16, 24, 17, 10, 18, 9))
+	case x < 8:
+		f = []uint32{4, 6, 5, 7, 0x80000000, 0x80000002, 0xFFFFFFFF, 0xFFFFFFFD, 0xFFFFFFFE, 0x7FFFFFE4, 32, 0x100}[g.Intn(12)]
+		r.Hit("flags:beyond-the-meaningful-bits")
+	default:
+		f = uint32(g.U64())
+		r.Hit("flags:random-32-bit-word")
+	}
+	if walk {
+		f &^= 4
+	}
+	return f
 }
 
 // BR_ABORT: the walk function aborts at the first record — checked against the Go map only.
@@ -294,7 +369,7 @@ func abortStream(g *vlib.Rng, n int) {
 			}
 		}
 		if bad != "" {
-			propFail("prop:br_abort", bad, caseT{"br_abort", false, []string{"open 0 1 " + defOpts, line}})
+			propFail("prop:br_abort", bad, caseT{Name: "br_abort", Lines: []string{"open 0 1 " + defOpts, line}})
 		}
 		W.ask("close")
 	}
